@@ -248,6 +248,33 @@ def c02_families(tier, seed, ids=None):
                      assign("col", fn([], block([assign("a", lst([])), fr(["e", "n"], [call("gen"), call("fromto", I(0), I(9))], assign("a", bin_("+", N("a"), lst([N("e"), N("n")])))), N("a")]))), call("col")]
         nm.append(mk(ids, items, {"nest": [k1, k2, k3, pos, where, kind]}))
     out.append(("loops nested directly in loop bodies: iterator counts x position x placement", nm, ("value",)))
+    # laziness seen from the generator's side: a generator that re-reads a global (with nothing but locals in between) sees what the loop
+    # body assigned to it before the generator was resumed -- a moved bound, a work list the body appends to, through composed generators,
+    # in lock-step loops, and again after the loop ended (recycled contexts)
+    lz = []
+    upto = assign("upto", fn([], block([assign("i", I(0)), wh(bin_("<", N("i"), N("limit")), block([y(N("i")), assign("i", bin_("+", N("i"), I(1)))]))])))
+    dbl = assign("dblg", fn([], fr(["v"], [call("upto")], y(bin_("*", N("v"), I(2))))))
+    work = assign("work", fn([], block([assign("k", I(0)), wh(bin_("<", N("k"), un("#", N("queue"))), block([y(ix1(N("queue"), N("k"))), assign("k", bin_("+", N("k"), I(1)))]))])))
+    span = assign("spang", fn(["lo"], block([assign("j", N("lo")), wh(bin_("<", bin_("-", N("j"), N("lo")), N("limit")), block([y(N("j")), assign("j", bin_("+", N("j"), I(1)))]))])))
+    steady = assign("steady", fn([], block([assign("i", I(0)), wh(bin_("<", N("i"), I(4)), block([y(bin_("+", N("bias"), N("i"))), assign("i", bin_("+", N("i"), I(1)))]))])))
+    rec_ = lambda e: assign("acc", bin_("+", N("acc"), lst([e])))
+    cases = {
+        "moved bound": [upto, assign("limit", I(3)), assign("acc", lst([])), fr(["v"], [call("upto")], block([rec_(N("v")), iff(bin_("==", N("v"), I(1)), assign("limit", I(6)))])), N("acc"), N("limit")],
+        "bound lowered": [upto, assign("limit", I(9)), assign("acc", lst([])), fr(["v"], [call("upto")], block([rec_(N("v")), iff(bin_("==", N("v"), I(2)), assign("limit", I(0)))])), N("acc")],
+        "composed generator": [upto, dbl, assign("limit", I(3)), assign("acc", lst([])), fr(["v"], [call("dblg")], block([rec_(N("v")), iff(bin_("==", N("v"), I(2)), assign("limit", I(5)))])), N("acc")],
+        "work list": [work, assign("queue", lst([I(1)])), assign("acc", lst([])), fr(["v"], [call("work")], block([rec_(N("v")), iff(bin_("<", N("v"), I(6)), assign("queue", bin_("+", N("queue"), lst([bin_("*", N("v"), I(2)), bin_("+", bin_("*", N("v"), I(2)), I(1))]))))])), N("acc"), N("queue")],
+        "lock-step": [span, assign("limit", I(2)), assign("acc", lst([])), fr(["p", "q"], [call("spang", I(0)), call("spang", I(10))], block([rec_(lst([N("p"), N("q")])), iff(bin_("==", N("p"), I(1)), assign("limit", I(4)))])), N("acc")],
+        "value read on every resumption": [steady, assign("bias", I(0)), assign("acc", lst([])), fr(["v"], [call("steady")], block([rec_(N("v")), assign("bias", bin_("+", N("bias"), I(10)))])), N("acc")],
+        "again after the loop ended": [upto, assign("limit", I(2)), assign("acc", lst([])), fr(["v"], [call("upto")], rec_(N("v"))), assign("limit", I(4)), fr(["v"], [call("upto")], block([rec_(N("v")), iff(bin_("==", N("v"), I(0)), assign("limit", I(5)))])), N("acc"),
+                                       assign("limit", I(1)), fr(["v", "w"], [call("upto"), call("upto")], block([rec_(N("v")), assign("limit", I(3))])), N("acc")],
+    }
+    for cname, items in cases.items():
+        lz.append(mk(ids, items, {"lazy-global": cname, "where": "top"}))
+        # the same statements inside one top-level block (one statement, one compilation)
+        defs = [it for it in items if it["t"] == "assign" and it["e"]["t"] == "fn"]
+        rest = [it for it in items if not (it["t"] == "assign" and it["e"]["t"] == "fn")]
+        lz.append(mk(ids, defs + [block(rest)], {"lazy-global": cname, "where": "block"}))
+    out.append(("generators that re-read a global the loop body assigns", lz, ("value",)))
     # what a loop binds when its iterator expressions mention a name that is also one of its own variables (the expression sees the
     # enclosing variable): the family is shared with C04
     shared = [f for f in c04_families(tier, seed, Ids(8000000)) if f[0].startswith("a statement introduces a name")]
